@@ -3,6 +3,10 @@
 import json, os
 root = os.path.dirname(os.path.dirname(os.path.abspath(__file__)))
 CHECKS = [
+ dict(id="C06", level="fault_enumeration", engine="gen (fault-state enumeration on the real VM)", design="§5 C06",
+      technique="exhaustive enumeration of failure kind x VM state at the instant of failure (value-stack fill, call depth) x handler context; invariant oracle plus follow-up probes on the same VM",
+      text="19 failure kinds (ordinary runtime errors, throw, Go callbacks panicking with string/error/runtime error, callback panicking after re-entering the VM through an Invoker, objects whose methods panic, unbounded recursion, recursion with 200 locals) and literals overflowing the value stack, raised with the value stack filled to {0, 2040..2047} (thorough {0, 1, 1000, 2020..2047}) slots and at call depths {1, 1022, 1023} (thorough {1, 2, 1019..1023}) in 9 handler contexts (none, try-catch, try-finally, in catch, in finally, handler in a caller, callback child VM with and without enclosing try, module body). No panic escapes Run, Run returns value xor error, ordinary errors inside try-catch are caught, the same script gives the same outcome again on the same VM and five probe scripts (incl. uncaught errors at depth 0 and 5) give their known results afterwards.",
+      note="Stack overflow is exempt from 'caught by the nearest handler' (documented). Custom Object implementations beyond the panicking one are not covered."),
  dict(id="C13", level="exploration", engine="gen (scope model + bytecode scan + call recorders)", design="§5 C13",
       technique="bounded exhaustive enumeration of scripts x disabled sets x configurations; oracle = generator's scope model, scan of all GETBUILTIN operands and call recorders wrapped around the builtin objects",
       text="For each N in {int, len, append, printf} and every subset of that alphabet containing N (quick: the singleton): N undeclared or bound by each of the 24 binding forms of C01-G1 (3 of which hide the binding) x 17 use sites x use expressions with and without a literal const in scope; a source module referencing N imported from 8 kinds of site; Eval sessions of <= 3 steps mixing fragments that use N, declare N, and the embedder's DisableBuiltin call. Optimizer on, off and at budget 1. An undeclared reference must be a compile error; Bytecode must contain no GETBUILTIN of a disabled builtin; neither compiling (optimizer's private VM) nor running may call one.",
